@@ -129,9 +129,37 @@ CONST_SHAPES(p62, (1ll << 62))
 CONST_SHAPES(m62, -(1ll << 62))
 CONST_SHAPES(one, 65536ll)
 CONST_SHAPES(p47, (1ll << 47))
+// integer operand a compile-time constant (literal multiplier / divisor at the call site)
+#define KSCALAR_SHAPES(tag, T, K) \
+  W(mul_k_##tag) { UNUSED_B; return (as_fixed(a) * static_cast<T>(K)).v; } \
+  W(kmul_##tag) { UNUSED_B; return (static_cast<T>(K) * as_fixed(a)).v; } \
+  W(muleq_k_##tag) { UNUSED_B; fixed_t x{as_fixed(a)}; x *= static_cast<T>(K); return x.v; } \
+  W(div_k_##tag) { UNUSED_B; return (as_fixed(a) / static_cast<T>(K)).v; } \
+  W(diveq_k_##tag) { UNUSED_B; fixed_t x{as_fixed(a)}; x /= static_cast<T>(K); return x.v; }
+KSCALAR_SHAPES(i2, int, 2)
+KSCALAR_SHAPES(i3, int, 3)
+KSCALAR_SHAPES(i4, int, 4)
+KSCALAR_SHAPES(im1, int, -1)
+KSCALAR_SHAPES(i0, int, 0)
+KSCALAR_SHAPES(i65536, int, 65536)
+KSCALAR_SHAPES(l2p20, int64_t, (int64_t(1) << 20))
+KSCALAR_SHAPES(u16_8, uint16_t, 8)
+KSCALAR_SHAPES(lprime, int64_t, 1000000007ll)
+KSCALAR_SHAPES(u64big, uint64_t, 0x8000000000000001ull)
 // s += a, n times (n = b, 0..64)
 W(add_accum) { fixed_t s{as_fixed(a)}; for(int64_t i = 0; i < b; ++i) s += as_fixed(a); return s.v; }
 W(sub_accum) { fixed_t s{as_fixed(a)}; for(int64_t i = 0; i < b; ++i) s -= as_fixed(-a); return s.v; }
+// aliased compound assignment: both operands are the same object (x += x, or through two references to one object)
+namespace { template<class L, class R> constexpr void acc_add(L & l, R const & r) { l += r; } template<class L, class R> constexpr void acc_sub(L & l, R const & r) { l -= r; }
+            template<class L, class R> constexpr void acc_mul(L & l, R const & r) { l *= r; } template<class L, class R> constexpr void acc_div(L & l, R const & r) { l /= r; } }
+W(addeq_self) { UNUSED_B; fixed_t x{as_fixed(a)}; x += x; return x.v; }
+W(subeq_self) { UNUSED_B; fixed_t x{as_fixed(a)}; x -= x; return x.v; }
+W(muleq_self) { UNUSED_B; fixed_t x{as_fixed(a)}; x *= x; return x.v; }
+W(diveq_self) { UNUSED_B; fixed_t x{as_fixed(a)}; x /= x; return x.v; }
+W(addeq_ref_self) { UNUSED_B; fixed_t x{as_fixed(a)}; acc_add(x, x); return x.v; }
+W(subeq_ref_self) { UNUSED_B; fixed_t x{as_fixed(a)}; acc_sub(x, x); return x.v; }
+W(muleq_ref_self) { UNUSED_B; fixed_t x{as_fixed(a)}; acc_mul(x, x); return x.v; }
+W(diveq_ref_self) { UNUSED_B; fixed_t x{as_fixed(a)}; acc_div(x, x); return x.v; }
 // (a+b)-b in one expression (C17), the optimiser sees both operations
 W(add_sub_back) { return ((as_fixed(a) + as_fixed(b)) - as_fixed(b)).v; }
 W(sub_add_back) { return ((as_fixed(a) - as_fixed(b)) + as_fixed(b)).v; }
@@ -254,6 +282,7 @@ W(rt_f32) { UNUSED_B; return fixed_t{static_cast<float>(as_fixed(a))}.v; }
 #if !defined(VERIF_KERNELS_ONLY)
 #define E(name) { #name, &w_##name },
 #define E_CONST(tag) E(add_c_##tag) E(add_cl_##tag) E(sub_c_##tag) E(sub_cl_##tag) E(addeq_c_##tag) E(subeq_c_##tag)
+#define E_KSCALAR(tag) E(mul_k_##tag) E(kmul_##tag) E(muleq_k_##tag) E(div_k_##tag) E(diveq_k_##tag)
 #define E_MIXED(tag) E(add_f##tag) E(add_##tag##f) E(sub_f##tag) E(sub_##tag##f) E(mul_f##tag) E(mul_##tag##f) E(div_f##tag) E(div_##tag##f)
 #define E_EQ(tag) E(addeq_f##tag) E(subeq_f##tag) E(muleq_f##tag) E(diveq_f##tag)
 #define E_COMMON(tag) E(ctor_##tag) E(a2f_##tag) E(mkf_##tag) E(cast_##tag) E(f2a_##tag) E(sin_angle_##tag) E(cos_angle_##tag) E(tan_angle_##tag) E_MIXED(tag)
@@ -267,6 +296,8 @@ extern "C" const w_entry w_entries[] = {
   E_CONST(max) E_CONST(low) E_CONST(p1) E_CONST(m1) E_CONST(p2) E_CONST(m2) E_CONST(big) E_CONST(mbig)
   E_CONST(p62) E_CONST(m62) E_CONST(one) E_CONST(p47)
   E(add_accum) E(sub_accum) E(add_sub_back) E(sub_add_back)
+  E_KSCALAR(i2) E_KSCALAR(i3) E_KSCALAR(i4) E_KSCALAR(im1) E_KSCALAR(i0) E_KSCALAR(i65536) E_KSCALAR(l2p20) E_KSCALAR(u16_8) E_KSCALAR(lprime) E_KSCALAR(u64big)
+  E(addeq_self) E(subeq_self) E(muleq_self) E(diveq_self) E(addeq_ref_self) E(subeq_ref_self) E(muleq_ref_self) E(diveq_ref_self)
   E(neg) E(abs) E(isnan) E(cmp_lt) E(cmp_le) E(cmp_gt) E(cmp_ge) E(cmp_eq) E(cmp_ne)
   E(shl) E(shr) E(and_) E(ceil) E(floor)
   E(limits_max) E(limits_lowest) E(limits_nan) E(limits_one) E(const_phi) E(const_pidiv2)
